@@ -199,6 +199,8 @@ def scripts_code_to_spec(ctx: Ctx, rng):
         steps.append([{"cmd": "pinauth", "secret": "right", "cookie": "valid", "frame": "unknown", "pin": "wrong"}, ht.TRUSTED_REP, 0])
         steps.append([ht.ATTEMPT["right"], ht.TRUSTED_REP, 1])
         scripts.append({"evalex": True, "pin_on": True, "steps": steps, "src": "pinseq"})
+    # (f) COMMAND x CONFIGURATION product (construction-time options) and the PIN cookie's age, deterministic
+    scripts += ht.command_config_scripts()
     # (e) configuration histories: app.pin = B / A / None, app.trusted_hosts = [...], app.evalex = b between requests
     scripts += ht.config_history_scripts(rng, _n(60, 3000, q))
     # (d) far beyond the lock-out: "until the process restarts"
@@ -243,7 +245,8 @@ def judge_scripts(ctx: Ctx, scripts, kind="dbg"):
     for r in ctx.judge(AREA, JUDGE, lines, batch=2500):
         sc = scripts[r["t"]]
         step = sc["steps"][r["i"]]
-        case = {"evalex": sc["evalex"], "pin_on": sc["pin_on"], "steps": [s[:3] for s in sc["steps"][: r["i"] + 1]]}
+        case = {"evalex": sc["evalex"], "pin_on": sc["pin_on"], "opts": sc.get("opts"),
+                "steps": [s[:3] for s in sc["steps"][: r["i"] + 1]]}
         ctx.violation(f"{r['clause']}:{step[0]['cmd']}", r["clause"], case, kind=kind)
     return seen
 
@@ -408,4 +411,5 @@ def replay(ctx: Ctx, data):
     elif kind == "pfix":
         judge_proxy(ctx, [case], kind=kind)
     else:
-        judge_scripts(ctx, [{"evalex": case["evalex"], "pin_on": case["pin_on"], "steps": case["steps"], "src": "replay"}], kind=kind)
+        judge_scripts(ctx, [{"evalex": case["evalex"], "pin_on": case["pin_on"], "steps": case["steps"], "opts": case.get("opts"),
+                             "src": "replay"}], kind=kind)
